@@ -81,6 +81,8 @@ class C02(ProtoSpec):
         """non-initial start states: a restarted server that already holds stored state"""
         return [[],
                 [("conn", 0), ("bind", 0, "X", "A"), ("open", 0, "m"), ("restart",)],
+                # two connections of one side subscribed to one mailbox (a client that reconnected)
+                [("cbind", 0, "X", "A"), ("cbind", 1, "X", "A"), ("open", 0, "m"), ("open", 1, "m")],
                 ]
 
     def nontrivial(self, worlds, mon):
